@@ -1,9 +1,12 @@
 // C08: evaluation order is left-to-right and every run is reproducible.
 // (a) order programs: every sub-expression of a generated construct is a marker (or a stdin read);
-//     markers are numbered by the printer in the order the statement prescribes, so the expected trace is 1..N;
-//     each program is evaluated several times from one parse (map-order effects show up between evaluations).
+//
+//	markers are numbered by the printer in the order the statement prescribes, so the expected trace is 1..N;
+//	each program is evaluated several times from one parse (map-order effects show up between evaluations).
+//
 // (b) reproducibility programs: evaluated repeatedly in fresh scopes and in freshly started worker processes;
-//     output, result and error must be identical everywhere.
+//
+//	output, result and error must be identical everywhere.
 package c08
 
 import (
